@@ -100,16 +100,22 @@ def pruneEmpty (r : DirRepo) : DirRepo :=
     | (true, r') => { r' with live := false }
     | (false, r') => r'
 
+/-- `attempt to remove an empty upload folder` -/
+def dirStep1 (r : DirRepo) : DirRepo := if r.sessions = 0 then (rmUploads r).2 else r
+
+/-- `indexLoad` fails when index.json is missing or does not decode -/
+def loadFails (r : DirRepo) : Bool := !r.repoDir || !r.indexFile || r.corrupt
+
+/-- the collection proper (skipped when the index cannot be loaded) -/
+def dirCollect (p : Policy) (r : DirRepo) : DirRepo :=
+  if loadFails r then r else { r with index := (gc p r.index r.blobs).index, blobs := gcBlobs p r.index r.blobs }
+
+def dirPrune (e : Bool) (r : DirRepo) : DirRepo :=
+  if e && r.index.manifests.isEmpty && r.sessions = 0 then pruneEmpty r else r
+
 /-- `dirRepo.gc` with `EmptyRepo = e`; the flag is the error it returns -/
 def dirGC (p : Policy) (e : Bool) (r : DirRepo) : DirRepo × Bool :=
-  -- attempt to remove an empty upload folder
-  let r1 := if r.sessions = 0 then (rmUploads r).2 else r
-  -- the collection proper; `indexLoad` fails when index.json is missing or does not decode
-  let loadFails := !r1.repoDir || !r1.indexFile || r1.corrupt
-  let r2 := if loadFails then r1 else
-    { r1 with index := (gc p r1.index r1.blobs).index, blobs := gcBlobs p r1.index r1.blobs }
-  let r3 := if e && r2.index.manifests.isEmpty && r2.sessions = 0 then pruneEmpty r2 else r2
-  (r3, loadFails)
+  (dirPrune e (dirCollect p (dirStep1 r)), loadFails (dirStep1 r))
 
 /-! ## the store-wide pass -/
 
